@@ -126,7 +126,7 @@ def explore(ctx):
     find_cases, search_cases = [], []
     L = 6 if ctx.quick() else 8
 
-    def do_find(expr, prefix, s, pos, tag):
+    def do_find(expr, prefix, s, pos, tag, model=True):
         try:
             real = nm.find(expr, s, pos=pos, prefix=prefix)
             exc = None
@@ -139,12 +139,14 @@ def explore(ctx):
         ctx.count(tag)
         if real is not None:
             ctx.nontriv((tag, s, pos))
-        rep = {'kind': 'find', 'expr': expr.name, 'prefix': prefix, 's': s, 'pos': pos}
+        rep = {'kind': 'find', 'expr': expr.name, 'prefix': prefix, 's': s if len(s) < 400 else {'repeat': [s[:1], s.count(s[:1]), s[-1:], len(s)]}, 'pos': pos}
         if exc is not None:
             ctx.violation('matcher-raises', f'find({expr.name}, {s!r}, pos={pos}, prefix={prefix!r}) raised {type(exc).__name__}: {exc}', rep)
             return
         if real != ref:
             ctx.violation('find-wrong', f'find({expr.name}, {s!r}, pos={pos}, prefix={prefix!r}) = {real}, the leftmost balanced match is {ref}', rep)
+        if not model:
+            return      # too long for the list-based model (its random access is linear): implementation vs reference only
         rx = [prefix] if prefix else []
         o, c = expr.value
         term = f'({table(rx, s)}, ({ord(o)}%N, {ord(c)}%N), {"(Some 0)" if prefix else "(@None nat)"}, {coq_str(s)}, ({pos})%Z)'
@@ -217,6 +219,12 @@ def explore(ctx):
         expr, alpha = rnd.choice(kinds)
         s = ''.join(rnd.choice(alpha + alpha[:2]) for _ in range(rnd.randint(9, 60)))
         do_find(expr, '', s, rnd.randint(-1, len(s) + 1), 'find:random')
+    # deep nesting: far beyond any recursion limit
+    for expr, alpha in kinds:
+        o, c = expr.value
+        for depth in ((1100, 2600) if ctx.quick() else (1100, 2600, 6000)):
+            for s in (o * depth + c * depth, o * depth, 'a' + o * depth + c * (depth - 1), o + c * depth):
+                do_find(expr, '', s, 0, 'find:deep', model=False)
     ctx.sample({'find_case': find_cases[len(find_cases) // 2][0][:160], 'impl': find_cases[len(find_cases) // 2][1]})
     ctx.sample({'search_case': search_cases[len(search_cases) // 2][0][:300], 'impl': search_cases[len(search_cases) // 2][1]})
     for nme, fn, cs in (('c12f', 'run_find', find_cases), ('c12s', 'run_search', search_cases)):
